@@ -349,6 +349,17 @@ class VInterp(sym.Interp):
             if p.get("neg"):
                 lit = -lit
             return (getattr(v, "is_Integer", False) and int(v) == int(lit)), []
+        if k == "PStruct" and isinstance(self.deref(v), dict):
+            d = self.deref(v)
+            out = []
+            for f in p["fields"]:
+                if f["name"] not in d:
+                    return False, []
+                ok, b = self.match_pat(f["pat"], d[f["name"]])
+                if not ok:
+                    return False, []
+                out += b
+            return True, out
         if k in ("PTupleStruct", "PStruct", "PPath"):
             name = (p.get("def") or "").split("::")[-1]
             if isinstance(v, sym.Variant) and v.name == name:
@@ -402,7 +413,23 @@ class VInterp(sym.Interp):
                     return True, b
             return False, []
         if k == "PRange":
-            raise sym.Unsupported(p, "range pattern")
+            def bound(q):
+                if q is None:
+                    return None
+                if q.get("lit") != "int":
+                    raise sym.Unsupported(p, "range pattern with a non-integer bound")
+                x = int(q["v"])
+                return -x if q.get("neg") else x
+            lo, hi = bound(p.get("lo")), bound(p.get("hi"))
+            v = self.deref(v)
+            if not getattr(v, "is_Integer", False):
+                raise sym.Unsupported(p, "range pattern against a symbolic value")
+            x = int(v)
+            if lo is not None and x < lo:
+                return False, []
+            if hi is not None and (x > hi if p.get("inclusive") else x >= hi):
+                return False, []
+            return True, []
         raise sym.Unsupported(p, "pattern %s" % k)
 
     def ev_Let(self, n):
@@ -423,6 +450,22 @@ class VInterp(sym.Interp):
         if k == "PTuple" and isinstance(val, tuple):
             for q, v in zip(pat["ps"], val):
                 self.bind(q, v, node)
+            return
+        if k == "PStruct" and isinstance(self.deref(val), dict):
+            # destructuring a struct value: `let Polynomial { coefficients, .. } = p;`
+            d = self.deref(val)
+            for f in pat["fields"]:
+                if f["name"] not in d:
+                    raise sym.Unsupported(node or pat, "no field %s to destructure" % f["name"])
+                self.bind(f["pat"], d[f["name"]], node)
+            return
+        if k in ("PSlice", "POr", "PLit", "PRange"):
+            ok, binds = self.match_pat(pat, val)
+            if not ok:
+                raise sym.Unsupported(node or pat, "irrefutable binding does not match")
+            for i, nm, v in binds:
+                self.env[i] = v
+                self.names[i] = nm
             return
         return sym.Interp.bind(self, pat, val, node)
 
@@ -660,8 +703,17 @@ class VInterp(sym.Interp):
             if name in ("copied", "cloned", "by_ref"):
                 return rv
             raise sym.Unsupported(n, "unbounded repeat() consumed by %s" % name)
-        if isinstance(rv, tuple) and rv and rv[0] == "range":
-            items = LazyIter([sp.Integer(i) for i in range(int(rv[1]), int(rv[2]))])
+        if isinstance(rv, tuple) and rv and rv[0] == "range" and rv[2] is None and name in ("zip", "take"):
+            # an unbounded range `a..` consumed by zip / take
+            lo = 0 if rv[1] is None else int(rv[1])
+            if name == "take":
+                k_ = int(self.ev(n["args"][0]))
+                return LazyIter([sp.Integer(i) for i in range(lo, lo + k_)])
+            o = self.deref(self.ev(n["args"][0]))
+            o = o.items if isinstance(o, LazyIter) else list(o)
+            return LazyIter([(sp.Integer(lo + i), x) for i, x in enumerate(o)])
+        if isinstance(rv, tuple) and rv and rv[0] == "range" and rv[2] is not None:
+            items = LazyIter([sp.Integer(i) for i in range(0 if rv[1] is None else int(rv[1]), int(rv[2]))])
             r = self.iter_method(n, name, items)
             if r is not NotImplemented:
                 return r
@@ -997,6 +1049,12 @@ class VInterp(sym.Interp):
             o = self.deref(self.ev(n["args"][0]))
             if isinstance(o, RepeatIter):
                 return LazyIter([(x, o.value) for x in items])
+            if isinstance(o, tuple) and o and o[0] == "range":
+                lo = 0 if o[1] is None else int(o[1])
+                hi = lo + len(items) if o[2] is None else int(o[2])       # `a..` is as long as needed
+                o = [sp.Integer(i) for i in range(lo, hi)]
+            elif isinstance(o, tuple) and o and isinstance(o[0], str):
+                raise sym.Unsupported(n, "zip with %r" % (o,))
             o = o.items if isinstance(o, LazyIter) else list(o)
             return LazyIter(list(zip(items, o)))
         if name == "map":
